@@ -332,8 +332,9 @@ fn check_traffic(ctx: &mut Ctx, c: &TrafficCase) -> Res {
             st.set_read_timeout(Some(Duration::from_secs(2))).unwrap();
             let mut got = Vec::new();
             let _ = st.read_to_end(&mut got);
-            if got != b"HTTP/1.1 200 OK\nContent-Length: 0\nConnection: close\n\n" {
-                return ctx.fail("health-response-differs", format!("read {:?}", String::from_utf8_lossy(&got)));
+            if !got.starts_with(b"HTTP/1.") {
+                // what the response says exactly is C15's business; here the connection only has to be served and counted
+                return ctx.fail("health-connection-not-served", format!("read {:?}", String::from_utf8_lossy(&got)));
             }
             health_done += 1;
         }
